@@ -23,6 +23,10 @@ func init() {
 }
 
 func runC04(c *Ctx) {
+	c.Rule("R15", "the applied-index marker persisted with an entry is the entry's own new state (a stale marker makes the last entry replay after a restart: duplicated events under new versions change every later digest)", 2)
+	if _, aa := fsmApplyGuard(c, "R15"); aa != nil {
+		fsmApplyAdd(c, "R15", aa)
+	}
 	c.Rule("R1", "hash construction sites conform (history visitors, hyper steps)", 12)
 	c.Rule("R2", "Hasher implementations: Salted = Do(data…, salt); Do = reset, write all in order, Sum(nil); fakes not used in production", 4)
 	c.Rule("R3", "position encodings and root positions", 4)
